@@ -319,16 +319,32 @@ def run(ctx):
         evs = [dict(e, pauseMs=max(e.get("pauseMs") or 0, 700)) for e in c["events"]]
         paced.append({"id": len(paced), "op": "lsp.history", "files": c["files"], "events": evs})
     pres = ctx.impl(paced, timeout=3000, procs=6) if paced else {}
+    # a paced replay that still differs may do so only because of the parse-error finding (a broken final file): compare
+    # it with the stale-workspace candidates as well
+    alt2 = []
+    for k, (c, desc, diff) in enumerate(unexplained):
+        cands, broken = stale_workspaces(c)
+        for files in cands:
+            alt2.append({"id": len(alt2), "op": "lsp.history", "files": files, "events": [], "_for": k, "_broken": broken})
+    a2res = ctx.impl(alt2, timeout=3000, procs=6) if alt2 else {}
+    a2by = {}
+    for a in alt2:
+        a2by.setdefault(a["_for"], []).append((a, a2res[a["id"]].get("out") or {}))
     for k, (c, desc, diff) in enumerate(unexplained):
         o = pres[k].get("out") or {}
         known = None
-        if o.get("idle") and o.get("freshIdle") and "published" in o:
-            same = True
-            for f in set(o["published"]) | set(o["fresh"]):
-                a, b = o["published"].get(f, []), (o["fresh"].get(f, []) if f in o["files"] else [])
-                if a != b:
-                    same = False
-            if same and not o.get("orphanModules") and not o.get("orphanAggregates"):
+        if o.get("idle") and o.get("freshIdle") and "published" in o and not o.get("orphanModules") and not o.get("orphanAggregates"):
+            same = all(o["published"].get(f, []) == (o["fresh"].get(f, []) if f in o["files"] else [])
+                       for f in set(o["published"]) | set(o["fresh"]))
+            if not same:
+                for a, ao in a2by.get(k, []):
+                    if ao.get("idle") and "published" in ao:
+                        skip = {"/" + f for f in a["_broken"]}
+                        if all(o["published"].get(f, []) == ao["published"].get(f, [])
+                               for f in (set(o["published"]) | set(ao["published"])) - skip):
+                            same = True
+                            break
+            if same:
                 known = "C15-burst-races"
                 ctx.count("burst-race")
         ctx.fail("at quiescence the server's state differs from a fresh lint of the final workspace (published diagnostics / cache)",
